@@ -388,13 +388,19 @@ func (m *monC16) Final(f *Flow) {
 			unusable++
 		}
 	}
-	if len(f.AdoptWarn[g]) < unusable {
-		w.Violate("C16", "missing-warning", fmt.Sprintf("%d-of-%d", len(f.AdoptWarn[g]), unusable), "%d records were made unusable but AdoptSession returned %d warnings: %v (damage: %s)", unusable, len(f.AdoptWarn[g]), f.AdoptWarn[g], f.damageSummary())
+	// (an adoption that was stopped before it returned reports nothing: the
+	// warnings of every adoption since the damage count)
+	var warns []error
+	for gen := g; gen <= w.Gen; gen++ {
+		warns = append(warns, f.AdoptWarn[gen]...)
+	}
+	if len(warns) < unusable {
+		w.Violate("C16", "missing-warning", fmt.Sprintf("%d-of-%d", len(warns), unusable), "%d records were made unusable but AdoptSession returned %d warnings: %v (damage: %s)", unusable, len(warns), warns, f.damageSummary())
 	}
 	if w.Inconcl != "" || f.QStartStep == 0 {
 		return
 	}
-	if !f.everOnline(g) {
+	if !f.everOnline(g) && !f.goalReached() {
 		w.Violate("C16", "never-connects", f.stuckCause(), "the client adopted from the damaged Persistence never came online against a conforming, reachable broker within %v and %d steps; last ReadSlices errors: %v (damage: %s)", f.S.Now()-f.QStartTime, w.Steps-f.QStartStep, lastErrs(f.ReaderErrs, 2), f.damageSummary())
 		return
 	}
